@@ -22,8 +22,9 @@ RULE = (
     'fractional bits; grid values exact, in-between values raw+1/4, +1/2, '
     '+3/4 within one quantum; quick: for Short only the in-between values '
     'within 512 raw steps of min, 0 and max), every angle k/16 '
-    'degree (thorough: k/64) in [-720, 720] plus all 256 exact ties and '
-    'seed-derived angles on the 1/1024 grid.  Structured alphabets: '
+    'degree (thorough: k/64) in [-720, 720] plus all 1024 exact ties in '
+    'that range and 256 seed-derived angles on the 1/1024 grid.  Structured '
+    'alphabets: '
     'Integer/Long/UnsignedLong and FixedPoint over Integer: min, max, every '
     '+-2^k and +-2^k+-1, every pattern with one byte set to 1..255 and its '
     'complement, 64 seed-derived values; Float/Double: every sign x every '
@@ -32,22 +33,26 @@ RULE = (
     'width) padded to byte lengths B-1, B, B+1 for B in 0, 1, 127, 128, '
     '16383, 16384 (thorough: also 32767 characters); Var/Short-prefixed byte '
     'arrays at lengths 0, 1, 2, 126..129, 255..257, 16383..16385, 32766, '
-    '32767 (thorough: 2097151/2097152 for the VarInt prefix); UUID boundary '
+    '32767 (VarInt prefix also 32768, 65535, 65536; thorough: 2097151 and '
+    '2097152); UUID boundary '
     'patterns; TrailingByteArray; PrefixedArray over VarInt/Short/Integer '
     'lengths x 9 element types x element counts 0, 1, 3, pool, 127..129, '
-    '255..257 (thorough: 16383, 16384, 32767), nested arrays over all 9 '
+    '255..257 (Byte elements also 16383 and 16384 under a VarInt length; '
+    'thorough: under every length type, and 32767), nested arrays over all 9 '
     'length-type pairs, arrays of Position through the context entry points '
     'at protocols 340 and 578; scripted dispatch scenarios.  Then every '
     'strict prefix of every encoding of a self-delimiting type must raise: '
     'all cuts for encodings up to 1024 bytes (thorough: 20000, arrays '
-    '4096); for longer ones every cut within the first 8 and the last 8 bytes plus 16 evenly '
-    'spaced cuts.  Values are enumerated without repetition per type '
-    '(distinct by construction); prefixes are de-duplicated per type.  '
+    '4096); for longer ones every cut within the first 8 and the last 8 '
+    'bytes plus 16 evenly spaced cuts.  Values are enumerated without '
+    'repetition per type (distinct by construction); prefixes are '
+    'de-duplicated per type.  '
     'At most 3 failing inputs (the smallest) are reported per failure class; '
     'the total per class is in the evidence.')
 ASSUMPTIONS = [
     'non-termination of an encoder is judged by a horizon of 2,000,000 traced '
-    'line events per send (the largest in-domain case needs < 400,000)',
+    'line events per send (the largest enumerated case, a 32767-element '
+    'array through send_with_context, needs about 590,000)',
     'Angle encoding is judged against the nearest 1/256-turn step with a full '
     'turn wrapping to 0 (refproto.angle_byte, the rounding pyCraft '
     'documents); on exact ties (and within 1e-9 step of one) either '
